@@ -9,6 +9,10 @@
 (*   line  in out          one line went through the address stage(s)      *)
 (*   anon / deanon  fam x y   integer API call on an anonymizer with the   *)
 (*                            same salt and options (ties text to the map) *)
+(*   dump  fam pairs bad      the map file written by --dump-ip-map for    *)
+(*                            one family: must list every pair that was    *)
+(*                            used in the lines, each original and each    *)
+(*                            replacement once, all consistent with the map*)
 (*   exc   what                                                            *)
 (* Text is a sequence of code points; x, y are bit sequences.              *)
 (***************************************************************************)
@@ -20,8 +24,9 @@ N     == Len(Trace)
 VARIABLES l, skip, cls,
           on4, on6, undo,
           ps4, pins4, nets4, obs4,
-          ps6, obs6
-tvars == <<l, skip, cls, on4, on6, undo, ps4, pins4, nets4, obs4, ps6, obs6>>
+          ps6, obs6,
+          txt4, txt6      \* pairs seen as <<token, replacement>> in the lines of this configuration (for the dump check)
+tvars == <<l, skip, cls, on4, on6, undo, ps4, pins4, nets4, obs4, ps6, obs6, txt4, txt6>>
 
 V4 == INSTANCE PrefixMap WITH w <- 32, ps <- ps4, pins <- pins4, nets <- nets4, flip <- << >>,
                                keyed <- TRUE, obs <- obs4, MaxW <- 32, MaxPins <- 0, LemmaPairs <- 0
@@ -81,23 +86,25 @@ LineVerdict(e) ==
 TraceInit ==
   /\ l = 1 /\ skip = 0 /\ cls = {} /\ on4 = FALSE /\ on6 = FALSE /\ undo = FALSE
   /\ ps4 = 0 /\ pins4 = {} /\ nets4 = {} /\ obs4 = {} /\ ps6 = 0 /\ obs6 = {}
+  /\ txt4 = {} /\ txt6 = {}
 
 \* a rejected line / call changes nothing; the following events are still judged
 \* (lines are independent of each other except through the learned map)
 Reject(e, c) ==
   /\ PrintT(<<"FAIL", e.tid, l, c>>)
   /\ skip' = e.tid
-  /\ UNCHANGED <<cls, on4, on6, undo, ps4, pins4, nets4, obs4, ps6, obs6>>
+  /\ UNCHANGED <<cls, on4, on6, undo, ps4, pins4, nets4, obs4, ps6, obs6, txt4, txt6>>
 
 StepCfg(e) ==
   /\ on4' = e.on4 /\ on6' = e.on6 /\ undo' = e.undo
   /\ ps4' = e.ps4 /\ ps6' = e.ps6 /\ pins4' = ToSet(e.pins4) /\ nets4' = ToSet(e.nets4)
-  /\ obs4' = {} /\ obs6' = {} /\ cls' = ToSet(e.clauses) /\ skip' = 0
+  /\ obs4' = {} /\ obs6' = {} /\ cls' = ToSet(e.clauses) /\ skip' = 0 /\ txt4' = {} /\ txt6' = {}
 
 StepLine(e) ==
   LET r == LineVerdict(e) IN
   IF r[1] # "ok" THEN Reject(e, r[1])
   ELSE /\ obs4' = r[2] /\ obs6' = r[3]
+       /\ txt4' = txt4 \cup (r[2] \ obs4) /\ txt6' = txt6 \cup (r[3] \ obs6)
        /\ UNCHANGED <<skip, cls, on4, on6, undo, ps4, pins4, nets4, ps6>>
 
 StepApi(e) ==
@@ -105,7 +112,22 @@ StepApi(e) ==
   IF v # "ok" THEN Reject(e, v)
   ELSE /\ obs4' = (IF e.fam = 4 THEN obs4 \cup {<<e.x, e.y>>} ELSE obs4)
        /\ obs6' = (IF e.fam = 6 THEN obs6 \cup {<<e.x, e.y>>} ELSE obs6)
-       /\ UNCHANGED <<skip, cls, on4, on6, undo, ps4, pins4, nets4, ps6>>
+       /\ UNCHANGED <<skip, cls, on4, on6, undo, ps4, pins4, nets4, ps6, txt4, txt6>>
+
+DumpVerdict(e) ==
+  LET P == e.pairs
+      PS_ == ToSet(P)
+      used == IF e.fam = 4 THEN txt4 ELSE txt6
+      S == IF e.fam = 4 THEN obs4 ELSE obs6 IN
+  IF e.bad # << >> THEN "DumpFormat"
+  ELSE IF \E i, j \in 1..Len(P) : i < j /\ (P[i][1] = P[j][1] \/ P[i][2] = P[j][2]) THEN "DumpDuplicate"
+  ELSE IF ~(used \subseteq PS_) THEN "DumpMissing"
+  ELSE IF \E q \in PS_ : PairVerdict(e.fam, q[1], q[2], S \cup PS_) # "ok" THEN "DumpInconsistent"
+  ELSE "ok"
+StepDump(e) ==
+  LET v == DumpVerdict(e) IN
+  IF v # "ok" THEN Reject(e, v)
+  ELSE UNCHANGED <<skip, cls, on4, on6, undo, ps4, pins4, nets4, obs4, ps6, obs6, txt4, txt6>>
 
 TraceNext ==
   /\ l <= N /\ l' = l + 1
@@ -113,9 +135,10 @@ TraceNext ==
      IF e.ev = "cfg" THEN StepCfg(e)
      ELSE IF e.ev = "mode" THEN          \* a further run with the same salt and options, anonymize or undo
             /\ undo' = e.undo
-            /\ UNCHANGED <<skip, cls, on4, on6, ps4, pins4, nets4, obs4, ps6, obs6>>
+            /\ UNCHANGED <<skip, cls, on4, on6, ps4, pins4, nets4, obs4, ps6, obs6, txt4, txt6>>
      ELSE IF e.ev = "line" THEN StepLine(e)
      ELSE IF e.ev \in {"anon", "deanon"} THEN StepApi(e)
+     ELSE IF e.ev = "dump" THEN StepDump(e)
      ELSE Reject(e, "Exception")
 TraceSpec == TraceInit /\ [][TraceNext]_tvars
 Done == l = N + 1 => PrintT(<<"DONE", N>>)
